@@ -1,18 +1,23 @@
 #!/bin/bash
 # Full clean build, offline: Coq development (full .vo), then every model's extracted runner.
-set -e
 cd "$(dirname "$0")"
 export PYTHONHASHSEED=0 PYTHONDONTWRITEBYTECODE=1
 rm -rf .work ocaml/build
 find coq -name '*.vo' -o -name '*.vos' -o -name '*.vok' -o -name '*.glob' -o -name '.*.aux' | xargs -r rm -f
 /venv/bin/python -W ignore - <<'PY' 2> >(grep -v 'WARNING conda' >&2)
-import sys, os, glob, importlib, subprocess
+import sys, os, glob, importlib, subprocess, json
 sys.path.insert(0, os.getcwd())
 from harness.lib import coqrun
 from harness.lib.common import COQ
+registered = [c['property_id'].lower() for c in json.load(open('MANIFEST.json'))['checks']]
+def modules():
+  for pid in registered:
+    try:
+      yield importlib.import_module('harness.props.' + pid)
+    except Exception as e:
+      print('setup: cannot import harness.props.%s: %s' % (pid, e))
 # regenerate Gen/*.v from /repo when a translator is registered (fail-soft here: the checks fail closed)
-for f in sorted(glob.glob('harness/props/c*.py')):
-  m = importlib.import_module('harness.props.' + os.path.basename(f)[:-3])
+for m in modules():
   for rel, fn in getattr(m, 'GENERATED', {}).items():
     try:
       res = fn(); text = res[0] if isinstance(res, tuple) else res
@@ -22,8 +27,7 @@ for f in sorted(glob.glob('harness/props/c*.py')):
 coqrun.mkproject()
 p = subprocess.run(['timeout', '3000', 'make', '-j16', '-k'], cwd=COQ)
 print('coq build rc=%d' % p.returncode)
-for f in sorted(glob.glob('harness/props/c*.py')):
-  m = importlib.import_module('harness.props.' + os.path.basename(f)[:-3])
+for m in modules():
   M = m.META
   if M.get('model_run'):
     try:
